@@ -337,10 +337,12 @@ func (b *bootstrapContext) DeleteConfig(ctx context.Context, bucketName, groupID
 		if err != nil {
 			return false, base.RedactErrorf("Error fetching registry to finalize delete of config group: %s, database: %s: %w", base.MD(groupID), base.MD(dbName), err), nil
 		}
-		if !registry.removeDatabase(groupID, dbName) {
-			base.InfofCtx(ctx, base.KeyConfig, "Database not found in registry during finalization")
+		if registryDb, ok := registry.getRegistryDatabase(groupID, dbName); !ok || !registryDb.IsDeleted() {
+			// removed by someone else, or re-created since this delete removed the config document
+			base.InfofCtx(ctx, base.KeyConfig, "Database not found (or re-created) in registry during finalization")
 			return false, nil, nil
 		}
+		registry.removeDatabase(groupID, dbName)
 		writeErr := b.setGatewayRegistry(ctx, bucketName, registry)
 		if writeErr == nil {
 			return false, nil, nil
